@@ -86,27 +86,37 @@ def poly_divmod(
         return floor[0], remainder[0]
 
     quotient = numpoly.zeros(dividend_.shape)
-    while True:
-        candidates = get_division_candidate(dividend_, divisor)
-        if candidates is None:
-            break
-        idx1, idx2, include, candidate = candidates
+    # The storage keys of the working dividend must keep their meaning from
+    # one step to the next: no names are dropped on the way.
+    with numpoly.global_options(retain_names=True):
+        while True:
+            candidates = get_division_candidate(dividend_, divisor)
+            if candidates is None:
+                break
+            idx1, idx2, include, candidate = candidates
 
-        exponent_diff = dividend_.exponents[idx1] - divisor.exponents[idx2]
-        candidate = candidate * numpoly.prod(divisor.indeterminants**exponent_diff, 0)
-        key = dividend_.keys[idx1]
+            exponent_diff = dividend_.exponents[idx1] - divisor.exponents[idx2]
+            candidate = candidate * numpoly.prod(
+                divisor.indeterminants**exponent_diff, 0
+            )
+            key = dividend_.keys[idx1]
 
-        quotient = numpoly.add(quotient, numpoly.where(include, candidate, 0), **kwargs)
-        dividend_ = numpoly.subtract(
-            dividend_, numpoly.where(include, divisor * candidate, 0), **kwargs
-        )
+            quotient = numpoly.add(
+                quotient, numpoly.where(include, candidate, 0), **kwargs
+            )
+            dividend_ = numpoly.subtract(
+                dividend_, numpoly.where(include, divisor * candidate, 0), **kwargs
+            )
 
-        # ensure the candidate values are actual zero
-        if key in dividend_.keys:
-            dividend_.values[key][include] = 0
+            # ensure the candidate values are actual zero
+            if key in dividend_.keys:
+                dividend_.values[key][include] = 0
 
-        dividend_, divisor = numpoly.align_polynomials(dividend_, divisor)
+            dividend_, divisor = numpoly.align_polynomials(dividend_, divisor)
 
+    if not numpoly.get_options()["retain_names"]:
+        quotient = numpoly.clean_attributes(quotient)
+        dividend_ = numpoly.clean_attributes(dividend_)
     return quotient, dividend_
 
 
